@@ -1475,8 +1475,6 @@ def mk_sub(base, idx):
                 d = shape_dim(at.args[1][0], int(k))
                 if d is not None:
                     return d
-                if k == 0 and not at.args[2]:
-                    return mk_call('len', [at.args[1][0]])      # x.shape[0] is len(x): one spelling
     return Term.of(Atom('sub', base, idx))
 
 
@@ -1742,8 +1740,13 @@ def _cmp_canon(t):
     def fn(a):
         if a.kind == 'call' and a.args[0] == 'floordiv' and len(a.args[1]) == 2 and not a.args[2]:
             return mk_call('floor', [a.args[1][0] / a.args[1][1]])
+        if a.kind == 'call' and a.args[0] == 'len' and len(a.args[1]) == 1 and not a.args[2]:
+            # len(x) of something that is not a literal container is x.shape[0]: one spelling for comparison
+            xa = a.args[1][0].single_atom()
+            if xa is None or xa.kind not in ('list', 'tuple', 'dict', 'str', 'comp', 'set'):
+                return mk_sub(mk_call('shape', [a.args[1][0]]), Term.num(0))
         return None
-    if not any(x.kind == 'call' and x.args[0] == 'floordiv' for x in all_atoms(t).values()):
+    if not any(x.kind == 'call' and x.args[0] in ('floordiv', 'len') for x in all_atoms(t).values()):
         return t
     return subst(t, fn)
 
